@@ -23,7 +23,8 @@ def mod_domain(kind):
 
 
 def group_none_row(m):
-    """Rows of finding AT1 (domain_group modifier without group argument): excluded from the comparison."""
+    """domain_group modifier without group argument: rejected by the library's validation (`_valid`), outside the
+    property's domain; the real code selects the group-less items there when a world is built from scratch."""
     return m[0] == 3 and m[2] is None
 
 
